@@ -144,7 +144,19 @@ func (p *parser) semicolonBefore() bool {
 	case "(name)", "(int)", "(float)", "(char)", "(string)", ")", "]", "}", "++", "--":
 		return true
 	}
+	// type names and other predeclared identifiers have symbols of their own here; in Go they are identifiers, and so
+	// are break, continue and return followed by a line end
+	if c := prev.Text[0]; c == '_' || c >= 'a' && c <= 'z' || c >= 'A' && c <= 'Z' {
+		return !noSemicolonAfter[prev.Text]
+	}
 	return false
+}
+
+// the keywords after which a line end does not end the statement
+var noSemicolonAfter = map[string]bool{
+	"case": true, "chan": true, "const": true, "default": true, "defer": true, "else": true, "for": true, "func": true,
+	"go": true, "goto": true, "if": true, "import": true, "interface": true, "map": true, "package": true, "range": true,
+	"select": true, "struct": true, "switch": true, "type": true, "var": true,
 }
 
 func (p *parser) doExpression(rbp int) *token {
